@@ -2,7 +2,7 @@ SPEC = {
     "id": "C25",
     "coq_props": ["Properties/C25.v", "Corr/C25.v"],
     "module": "MS.Properties.C25",
-    "theorems": ["C25_guarded", "C25_fixed_converges", "C25_retick_reencodes", "C25_refuted_rounding"],
+    "theorems": ["C25_guarded", "C25_fixed_converges", "C25_retick_reencodes"],
     "corr_require": "Require Import MS.Corr.C25.",
     "agrees": "C25.agrees",
     "in_domain": "C25.in_domain",
@@ -14,11 +14,10 @@ SPEC = {
             "(same second / same interval / later intervals, year edges, nanoseconds 0 / 999999999 / small / random); each TG is one flush on a real "
             "master instance whose WAL hands it to a recording ReplicationSender; the recorded stream is replayed on a real replica instance by "
             "replication.Receiver.Run -> ReplayerImpl.Replay; both instances are then queried in full per bucket; distinct = distinct input; "
-            "non-trivial = inside the theorem's guard (well-formed write sets, mixed TGs included, no tick exposed to the decoder's second rounding) with >= 2 write sets",
+            "non-trivial = inside the theorem's guard (well-formed write sets, mixed TGs included) with >= 2 write sets",
     "trusted_base": [
-        "Coq 8.16.1 kernel + vm_compute (no native_compute); C25_guarded, C25_fixed_converges, C25_retick_reencodes: no axioms; "
-        "C25_refuted_rounding evaluates C10's Flocq model of the tick codec: Coq.Reals axioms (sig_forall_dec, sig_not_dec, "
-        "functional_extensionality_dep) and Classical_Prop.classic enter through Flocq",
+        "Coq 8.16.1 kernel + vm_compute (no native_compute); C25_guarded, C25_fixed_converges, C25_retick_reencodes: no axioms "
+        "(the non-vacuity example evaluates C10's Flocq model of the tick codec)",
         "builder C30's UTC time-index theorems (Proofs/TimeIndex_facts.v: index_bracket_utc, year_of_utc_iff, year_start_utc) are imported and re-checked",
         "hand-written model coq/Model/Repl.v at the level of PARSED write sets: Replay, wtSetToCS, serializeVariableRecords, the replica's "
         "WriteCSM/WriteRecords for a one-bucket csm, an abstract primary store (slot -> bytes; VARIABLE slots stably sorted by ticks), full-range query; "
@@ -26,13 +25,14 @@ SPEC = {
         "conversions are not modelled; tied by in-Coq evaluation of every generated case (master rows, replica outcome, replica rows) against two "
         "real instances",
         "the tick codec (GetIntervalTicks32Bit / GetTimeFromTicks) is a parameter of the model: the theorems hold for all functions; the correspondence "
-        "instantiates it with C10's PrimFloat mirror (Model/TicksPF.v; FloatAxioms), the refutation witnesses with C10's Flocq model (Model/Ticks.v)",
-        "Go harness (fake gRPC client feeding the real Receiver loop), Python driver lib/vk.py",
+        "instantiates it with C10's PrimFloat mirror (Model/TicksPF.v; FloatAxioms), the non-vacuity example with C10's Flocq model (Model/Ticks.v)",
+        "Go harness (fake gRPC client feeding the real Receiver loop; the recording sender keeps the transmitted slices and the replica "
+        "reads them only after the master has committed the whole history = a full replication backlog), Python driver lib/vk.py",
     ],
     "assumptions": [
         "zone UTC (utils.InstanceConfig.Timezone = UTC); timeframes of whole seconds that tile the day, 1D included (guard tf_okb)",
         "VARIABLE buckets: the theorem gives the replica's store exactly: every record's ticks re-encoded from the time they decode to. That "
-        "decode(encode(decode(ticks))) stays within the resolution when no tick is exposed to the decoder's second rounding is NOT proved "
+        "decode(encode(decode(ticks))) stays within the resolution is NOT proved "
         "(Definition C25_variable_close; it is C10's open float bound); it is checked on the model and on the real code for every generated case",
         "transaction groups with several write sets are produced by Writer.WriteRecords per write + one RequestFlush (the steps of WriteCSM without "
         "its per-call flush), so that the order of the sets is chosen by the generator; single-write groups also go through the real WriteCSM",
@@ -42,9 +42,9 @@ SPEC = {
                   "groups (any number, any grouping, FIXED and VARIABLE sets mixed freely, every timeframe of whole seconds tiling the day), the "
                   "replica replays everything and its store is exactly the master's with every VARIABLE record's ticks re-encoded from the time "
                   "they decode to; C25_fixed_converges: for FIXED buckets the stores are equal, so every query agrees. F21a and F21b are fixed in "
-                  "/repo (former witnesses are regression cases). C25_refuted_rounding exhibits the remaining defect, which is the tick "
-                  "decoder's (C10 F1 seen through replication); its witness is replayed on two real instances in every run.",
-    "level_note": "Partial: convergence of VARIABLE timestamps within the resolution (no tick exposed to the second rounding) is stated, not proved "
+                  "/repo (former witnesses are regression cases), and so is the decoder's second rounding (C10 F1, 551fdb4) that showed "
+                  "through replication: no finding class is left; every corpus witness is replayed on two real instances in every run.",
+    "level_note": "Partial: convergence of VARIABLE timestamps within the resolution is stated, not proved "
                   "(C25_variable_close). Modelled not verified: replication/replay.go, receiver.go:40-62, executor/writer.go WriteCSM/WriteRecords "
                   "(one-bucket path), writer.go:162-235 (append + stable sort by ticks). The model starts from parsed write sets.",
     "design_ref": "§6 C25, §8 F21",
